@@ -129,6 +129,9 @@ func (fr *frame) call(c *ssa.Call) Val {
 	if v, ok := fr.writerCall(c, callee, args); ok {
 		return v
 	}
+	if v, ok := fr.predicateCall(c, callee, args); ok {
+		return v
+	}
 	if !InModule(callee) || callee.Blocks == nil {
 		if !readOnlyExternal(callee) {
 			for _, a := range args {
@@ -656,3 +659,90 @@ func (fr *frame) sprint(rest Val, ln bool) (Val, bool) {
 }
 
 var _ = math.Abs
+
+// predicateCall models the strings functions that take a rune predicate when
+// the string is known and the predicate is a function the evaluator can
+// follow: the predicate is evaluated on each rune in turn.
+func (fr *frame) predicateCall(c *ssa.Call, fn *ssa.Function, args []Val) (Val, bool) {
+	if fn.Pkg == nil || fn.Pkg.Pkg.Path() != "strings" || len(args) != 2 || args[0].K != KStr || args[1].K != KFunc {
+		return Val{}, false
+	}
+	switch fn.Name() {
+	case "IndexFunc", "LastIndexFunc", "ContainsFunc", "TrimFunc", "TrimLeftFunc", "TrimRightFunc":
+	default:
+		return Val{}, false
+	}
+	pred := args[1].Fn
+	s := args[0].S
+	dep := args[0].Dep
+	holds := func(r rune) (bool, bool) {
+		if v, ok := fr.pureCall(pred, []Val{int64Val(int64(r))}); ok {
+			return v.B, v.K == KBool
+		}
+		if !InModule(pred) || pred.Blocks == nil {
+			return false, false
+		}
+		out := fr.in.run(pred, []Val{int64Val(int64(r))}, nil, nil, fr.share(), fr.ctx+"/"+c.Name()+"p")
+		fr.in.curFr = fr
+		if !out.CanReturn || out.CanPanic || len(out.Ret) != 1 || out.Ret[0].K != KBool {
+			return false, false
+		}
+		return out.Ret[0].B, true
+	}
+	type hit struct {
+		pos, width int
+		in         bool
+	}
+	var hits []hit
+	for i, r := range s {
+		h, ok := holds(r)
+		if !ok {
+			return topDep(true), true
+		}
+		hits = append(hits, hit{i, len(string(r)), h})
+	}
+	switch fn.Name() {
+	case "IndexFunc":
+		for _, h := range hits {
+			if h.in {
+				return Val{K: KInt, I: big.NewInt(int64(h.pos)), Dep: dep}, true
+			}
+		}
+		return Val{K: KInt, I: big.NewInt(-1), Dep: dep}, true
+	case "LastIndexFunc":
+		for i := len(hits) - 1; i >= 0; i-- {
+			if hits[i].in {
+				return Val{K: KInt, I: big.NewInt(int64(hits[i].pos)), Dep: dep}, true
+			}
+		}
+		return Val{K: KInt, I: big.NewInt(-1), Dep: dep}, true
+	case "ContainsFunc":
+		for _, h := range hits {
+			if h.in {
+				return Val{K: KBool, B: true, Dep: dep}, true
+			}
+		}
+		return Val{K: KBool, B: false, Dep: dep}, true
+	}
+	lo, hi := 0, len(s)
+	if fn.Name() != "TrimRightFunc" {
+		for _, h := range hits {
+			if !h.in {
+				break
+			}
+			lo = h.pos + h.width
+		}
+	}
+	if fn.Name() != "TrimLeftFunc" {
+		for i := len(hits) - 1; i >= 0 && hits[i].pos >= lo; i-- {
+			if !hits[i].in {
+				break
+			}
+			hi = hits[i].pos
+		}
+	}
+	if hi < lo {
+		hi = lo
+	}
+	return Val{K: KStr, S: s[lo:hi], Dep: dep}, true
+}
